@@ -15,3 +15,8 @@ func (s *SessionState) VerifSessionID() []byte { return s.sessionId }
 
 // VerifMaster returns the master secret slice (not a copy).
 func (s *SessionState) VerifMaster() []byte { return s.masterSecret }
+
+// VerifFinished returns the Finished verify_data values recorded on the connection.
+func (c *Conn) VerifFinished() (client, server []byte) {
+	return append([]byte(nil), c.clientFinished[:]...), append([]byte(nil), c.serverFinished[:]...)
+}
